@@ -1812,6 +1812,13 @@ int QSexact_solver (mpq_QSdata * p_mpq,
 		mpf_QSfree_prob (p_mpf);
 		p_mpf = 0;
 	}
+	/* every precision level has been tried.  *status may still hold an
+	 * OPTIMAL/INFEASIBLE left there by the rational basis check (or by a float
+	 * solve whose certificate could not be obtained) that no exact test has
+	 * confirmed and for which x and y were never written: that is not a solved
+	 * problem. */
+	if (*status == QS_LP_OPTIMAL || *status == QS_LP_INFEASIBLE)
+		*status = QS_LP_UNSOLVED;
 	/* ending */
 CLEANUP:
 	QSVERIF_EVENT ("return", *status, rval);
